@@ -25,6 +25,7 @@ if note:
 dst = os.path.join('/verif/seeded', name)
 os.makedirs(dst, exist_ok=True)
 for f in ('patch.diff', 'demo.rs'):
-    shutil.copyfile(os.path.join(src, f), os.path.join(dst, f))
+    if os.path.abspath(src) != os.path.abspath(dst):
+        shutil.copyfile(os.path.join(src, f), os.path.join(dst, f))
 json.dump(meta, open(os.path.join(dst, 'meta.json'), 'w'), indent=1)
 print('stored', dst, 'rc', meta['check_exit_code'])
